@@ -64,7 +64,7 @@ def gen_single(rng, nflows):
         pir = rng.choice([None, 160000])
         d.update(cir=rng.choice([8000, 80000]), cbs=rng.choice([100, 1000]), pir=pir, pbs=None if pir is None else rng.choice([500, 2000]))
     else:
-        cfg = vs.gen_config(rng, k, "float", nflows=nflows)
+        cfg = vs.gen_config(rng, k, "float", nflows=nflows, base=0)
         cfg["rate"] = rng.choice([8000, 64000, 1e6])
         d["cfg"] = cfg
     return d
